@@ -14,6 +14,7 @@ from __future__ import annotations
 
 import itertools
 import logging
+import os
 import pickle  # noqa: S403
 import re
 import sys
@@ -377,12 +378,18 @@ def perform_cached_doit(
     h = get_readable_hash(unevaluated_expr)
     filename = cache_directory / f"{h}.pkl"
     if filename.exists():
-        with open(filename, "rb") as f:
-            return pickle.load(f)  # noqa: S301
+        try:
+            with open(filename, "rb") as f:
+                return pickle.load(f)  # noqa: S301
+        except (EOFError, OSError, pickle.UnpicklingError):
+            pass  # incomplete or unreadable cache file: compute and write it again
     _LOGGER.warning(
         f"Cached expression file {filename} not found, performing doit()..."
     )
     unfolded_expr = unevaluated_expr.doit()
-    with open(filename, "wb") as f:
+    # write to a temporary file first, so that readers never see a partial file
+    tmp_filename = cache_directory / f"{h}.{os.getpid()}.tmp"
+    with open(tmp_filename, "wb") as f:
         pickle.dump(unfolded_expr, f)
+    os.replace(tmp_filename, filename)
     return unfolded_expr
